@@ -906,7 +906,7 @@ def cases_b08(tier, seed):
     thorough = tier == "thorough"
     pts_choices = list(range(0, 16))                      # 2..17 points per interface
     specs = []
-    reps = 6 if thorough else 1
+    reps = 12 if thorough else 1
     for base in ("hex_patch", "flower", "strip"):
         for i, sub in enumerate(_base_subsets(base)):     # exhaustive: every connected cell subset
             for r in range(reps):
@@ -916,7 +916,7 @@ def cases_b08(tier, seed):
                     ts2 = _variant(rng, base, sub, pts_choices)
                     specs.append(dict(check="B08", source=dict(kind="gen", tissue=ts2),
                                       pre=[[int(rng.integers(2, 13)), bool(rng.random() < 0.5)]]))
-    for _ in range(1200 if thorough else 70):              # random subsets (holes, bridges) of larger tissues
+    for _ in range(3000 if thorough else 70):              # random subsets (holes, bridges) of larger tissues
         ts = _voronoi_variant(rng, pts_choices)
         pre = [] if rng.random() < 0.6 else [[int(rng.integers(2, 13)), bool(rng.random() < 0.5)]]
         specs.append(dict(check="B08", source=dict(kind="gen", tissue=ts), pre=pre))
@@ -942,14 +942,14 @@ def cases_b09(tier, seed):
         step = 1 if thorough else 4
         for sub in subs[int(rng.integers(0, step))::step]:
             add(dict(kind="gen", tissue=_variant(rng, base, sub, pts_choices)))
-    for _ in range(480 if thorough else 50):
+    for _ in range(1500 if thorough else 50):
         add(dict(kind="gen", tissue=_voronoi_variant(rng, pts_choices)))
-    for _ in range(240 if thorough else 24):                # WKT parser (quadratic vertex lookup: small tissues)
+    for _ in range(500 if thorough else 24):                # WKT parser (quadratic vertex lookup: small tissues)
         base = str(rng.choice(["hex_patch", "flower", "strip"]))
         subs = _base_subsets(base)
         ts = _variant(rng, base, subs[int(rng.integers(len(subs)))], [0, 1, 2, 4])
         add(dict(kind="wkt", tissue=ts))
-    for _ in range(240 if thorough else 24):                # generated Surface Evolver dumps
+    for _ in range(500 if thorough else 24):                # generated Surface Evolver dumps
         ts = _voronoi_variant(rng, [0, 1, 3, 6], (25, 40)) if rng.random() < 0.5 else None
         if ts is None:
             base = str(rng.choice(["hex_patch", "flower", "strip"]))
@@ -959,11 +959,11 @@ def cases_b09(tier, seed):
         if ts.get("xf"):
             ts["xf"]["scale"] = max(1.0, ts["xf"]["scale"])
         add(dict(kind="se", tissue=ts, orphans=bool(rng.random() < 0.5)))
-    for _ in range(320 if thorough else 32):                # tessellation of centre sets
+    for _ in range(800 if thorough else 32):                # tessellation of centre sets
         typ = ["random", "jitter", "square", "hex"][len(specs) % 4]
         add(dict(kind="tess", centres=dict(type=typ, k=int(rng.integers(3, 8)), seed=int(rng.integers(0, 10 ** 6)),
                                            spacing=float(rng.choice([4.0, 6.0, 9.5])))))
-    for i in range(8 * m):                                  # generated skeleton images (plain lines / thinned)
+    for i in range(160 if thorough else 8):                 # generated skeleton images (plain lines / thinned)
         n = int(rng.choice([12, 20, 30]))
         add(dict(kind="skel", tissue=dict(base="voronoi", n=n, seed=int(rng.integers(0, 1000)), pts=0),
                  thick=(1 if i % 2 else 3)))
@@ -1001,14 +1001,22 @@ def cases_b11(tier, seed):
         subs = _base_subsets(base)
         step = 1 if thorough else 3
         for sub in subs[int(rng.integers(0, step))::step]:
-            for _ in range(3 if thorough else 1):
+            for _ in range(6 if thorough else 1):
                 ts = _variant(rng, base, sub, small_pts)
                 ts.setdefault("moebius", 0.3)                # arc tissues
                 add(dict(kind="gen", tissue=ts))
-    for _ in range(1500 if thorough else 60):
+    for _ in range(4000 if thorough else 60):
         ts = _voronoi_variant(rng, [0, 0, 0, 1, 2, 3, 4, 6, 9, 12, 17, 25], (25, 40))
         ts.setdefault("moebius", 0.5)
         add(dict(kind="gen", tissue=ts))
+    # polygonal (two-point interface) small sub-tissues anywhere in the plane: the contraction path
+    small = [(b, sub) for b in ("hex_patch", "flower", "strip") for sub in _base_subsets(b) if 2 <= len(sub) <= 3]
+    for k in (range(len(small)) if thorough else rng.choice(len(small), 40, replace=False)):
+        b, sub = small[int(k)]
+        ts = _variant(rng, b, sub, [0])
+        ts["xf"] = dict(angle=float(rng.uniform(0, 6.283)), shift=[float(rng.uniform(-400, 100)), float(rng.uniform(-400, 100))],
+                        scale=1.0, reflect=bool(rng.random() < 0.5))
+        add(dict(kind="gen", tissue=ts), int(rng.integers(2, 13)), True)
     for pts in range(0, 41):                                 # every interface length 2..42 on one small arc tissue
         for ne in (range(1, 13) if thorough else [int(rng.integers(1, 13))]):
             add(dict(kind="gen", tissue=dict(base="flower", seed=1, pts=pts, moebius=0.6, mseed=pts)), ne, ne % 2 == 0)
@@ -1035,8 +1043,10 @@ _CASE = dict(B08=_case_b08, B09=_case_b09, B11=_case_b11)
 
 
 def _run_case(spec):
+    import warnings
     t0 = time.time()
-    with contextlib.redirect_stdout(io.StringIO()):
+    with contextlib.redirect_stdout(io.StringIO()), warnings.catch_warnings():
+        warnings.simplefilter("ignore")
         r = _CASE[spec["check"]](spec)
     r["seconds"] = round(time.time() - t0, 3)
     return r
@@ -1121,8 +1131,9 @@ def _aggregate(results, rule):
          bound="all edge-connected cell subsets of three base tissues (9-cell hexagonal patch: 292, 7-cell flower: 95, "
                "7-cell strip: 28) in randomised presentations (0..15 sample points per interface, Moebius curvature, "
                "renumbered ids with gaps, shifted / reversed cycles); random connected subsets with up to 3 removed "
-               "interior cells of Voronoi tissues from 25/40/60 sites; a third of the cases after generate_mesh(ne 1..12); "
-               "3 (quick) or all 15 (thorough) shipped Surface Evolver dumps; quick ~900 cases, thorough ~8000")
+               "interior cells of Voronoi tissues from 25/40/60 sites; a fifth (quick) / half (thorough) of the cases after "
+               "generate_mesh(ne 2..12; meshes with parallel mesh edges are skipped); "
+               "3 (quick) or all 15 (thorough) shipped Surface Evolver dumps; quick ~575 cases, thorough ~14000")
 def run_b08(tier, seed):
     res = _run_all(cases_b08(tier, seed))
     return _aggregate(res, "case = (mesh source, optional resampling) -> Frame; expected interfaces come from an own "
@@ -1136,8 +1147,9 @@ def run_b08(tier, seed):
                "random / jittered / exactly square / hexagonal centre sets (3x3..7x7), generated and 2 shipped skeleton "
                "images; each followed by a random sequence of 1-4 operations from generate_mesh(ne 2..12, "
                "replace_short_edges on/off) and Frame construction, mesh_wf evaluated after parsing and after every "
-               "operation; sub-tissues: every 3rd (quick) / every (thorough) connected subset of the three base tissues "
-               "and random subsets with holes of Voronoi tissues; quick ~450 cases, thorough ~3800")
+               "operation (quick: 7 of the 15 dumps); sub-tissues: every 4th (quick) / every (thorough) connected subset of the "
+               "three base tissues "
+               "and random subsets with holes of Voronoi tissues; quick ~255 cases, thorough ~4600")
 def run_b09(tier, seed):
     res = _run_all(cases_b09(tier, seed))
     return _aggregate(res, "case = (parser input, operation sequence); mesh_wf (bounded/meshwf.py, public attributes "
@@ -1146,11 +1158,12 @@ def run_b09(tier, seed):
 
 
 @bounded("B11", ["C11"], "generate_mesh keeps junctions, cells, adjacency, interface point order; idempotent",
-         bound="synthetic arc tissues (Moebius images) with 0..40 sample points per interface: every 2nd (quick) / every "
+         bound="synthetic arc tissues (Moebius images) with 0..40 sample points per interface: every 3rd (quick) / every "
                "(thorough) connected subset of the three base tissues, random subsets with holes of 25/40-site Voronoi "
-               "tissues, every interface length 2..42 on the 7-cell flower; ne 1..12, replace_short_edges on/off; the 15 "
-               "shipped Surface Evolver dumps and 2 skeleton images (quick: one random setting each; thorough: all ne x "
-               "on/off); quick ~480 cases, thorough ~3700")
+               "tissues, every interface length 2..42 on the 7-cell flower, 40 (quick) / all 2-3 cell polygonal sub-tissues placed "
+               "anywhere in the plane; ne 1..12, replace_short_edges on/off; the 15 "
+               "shipped Surface Evolver dumps and 2 skeleton images (quick: 6 dumps, one random setting each; thorough: all ne x "
+               "on/off); quick ~285 cases, thorough ~7500")
 def run_b11(tier, seed):
     res = _run_all(cases_b11(tier, seed))
     return _aggregate(res, "case = (mesh, ne, replace_short_edges); plain snapshot before, after generate_mesh and after a "
